@@ -372,3 +372,48 @@ Example C01_ex_complement :
   complement new_mgr (m_empty new_mgr) = Some (m_full new_mgr) /\
   complement new_mgr (m_full new_mgr) = Some (m_empty new_mgr).
 Proof. vm_compute. split; reflexivity. Qed.
+
+(* ---------------------------------------------------------------- premises discharged
+   InclusionProofs (C16) proves the soundness of included_in and DerivProofs (C03) the derivative
+   layer; with them the theorems above hold without the explicit premise, and the membership
+   clause of C01 is a theorem. *)
+Require Import Deriv DerivProofs LinkProofs.
+
+Theorem C01_make_union : forall m v m' t, wf m -> (forall x, In x v -> owned m x) ->
+  make_union m v = Some (m', t) ->
+  wf m' /\ ext m m' /\ owned m' t /\ lang_eq (L t) (fun w => exists x, In x v /\ L x w).
+Proof. exact make_union_closed. Qed.
+Print Assumptions C01_make_union.
+
+Theorem C01_union : forall m a b m' t, wf m -> owned m a -> owned m b -> union m a b = Some (m', t) ->
+  wf m' /\ ext m m' /\ owned m' t /\ lang_eq (L t) (fun w => L a w \/ L b w).
+Proof. exact union_closed. Qed.
+Print Assumptions C01_union.
+
+Theorem C01_union_list : forall m l m' t, wf m -> (forall x, In x l -> owned m x) ->
+  union_list m l = Some (m', t) ->
+  wf m' /\ ext m m' /\ owned m' t /\ lang_eq (L t) (fun w => exists x, In x l /\ L x w).
+Proof. exact union_list_closed. Qed.
+Print Assumptions C01_union_list.
+
+(* Main theorem: from ANY well-formed manager, the term built for program p denotes exactly the
+   SMT-LIB language of p (on well-formed SMT strings). *)
+Theorem C01_run_correct : forall p m m' t, wf m -> prog_ok p = true -> run p m = Some (m', t) ->
+  wf m' /\ ext m m' /\ owned m' t /\ lang_eq (L t) (denote p).
+Proof. exact run_correct_closed. Qed.
+Print Assumptions C01_run_correct.
+
+Theorem C01_nullable : forall p m m' t, wf m -> prog_ok p = true -> run p m = Some (m', t) ->
+  (rnul t = true <-> denote p []).
+Proof. exact nullable_run_closed. Qed.
+Print Assumptions C01_nullable.
+
+(* the membership test returns true exactly when w belongs to the SMT-LIB language of the construction *)
+Theorem C01_membership : forall p m m1 t w m2 b, dwf m -> prog_ok p = true -> run p m = Some (m1, t) ->
+  goodw w -> str_in_re m1 w t = Some (m2, b) -> (b = true <-> denote p w).
+Proof. exact membership_closed. Qed.
+Print Assumptions C01_membership.
+
+Theorem C01_fresh_manager : dwf new_mgr.
+Proof. exact new_mgr_dwf. Qed.
+Print Assumptions C01_fresh_manager.
